@@ -446,7 +446,7 @@ def tok_correspondence(run, jobs, scratch):
             continue
         seen.add((j.kind, j.data))
         inputs.append(j)
-    lim = 2200 if quick else 60000
+    lim = 2200 if quick else 20000
     inputs = inputs[:lim]
     lst = os.path.join(scratch, "toklist")
     with open(lst, "w") as f:
